@@ -1,6 +1,6 @@
 From Coq Require Import NArith List.
 Import ListNotations.
-From Stam Require Import Base.Tac Model.Rel Model.Offset Model.Transpose Spec.TransposeSpec Proofs.Transpose Props.C16.
+From Stam Require Import Base.Tac Base.Sx Model.Rel Model.Offset Model.Transpose Spec.TransposeSpec Proofs.Transpose Run.C16 Props.C16.
 Check (C16_rel_offset_text : forall (t1 t2 : text) b1 e1 b2 e2 x y,
   sub t1 b1 e1 = sub t2 b2 e2 -> y <= e1 - b1 -> y <= e2 - b2 ->
   sub t1 (b1 + x) (b1 + y) = sub t2 (b2 + x) (b2 + y)).
@@ -31,7 +31,13 @@ Check (C16_total : forall T V r src cfg existing complex fuel,
   wf_input T complex V r src = true -> fuel_for src <= fuel ->
   transpose fuel (lens_of T) complex V r src cfg existing = TErr
   \/ exists res, transpose fuel (lens_of T) complex V r src cfg existing = TOk res).
+Check (C16_run_forward_consistent : forall T V r src cfg existing complex fuel,
+  wf_input T complex V r src = true -> fuel_for src <= fuel ->
+  let m := transpose fuel (lens_of T) complex V r src cfg existing in
+  spec_fwd T V r src cfg true (show m) = show m).
 Print Assumptions C16_rel_offset_text.
+Print Assumptions C16_run_forward_consistent.
+Print Assumptions C16_run_back_consistent.
 Print Assumptions C16_transpose_sound.
 Print Assumptions C16_annotation_entry.
 Print Assumptions C16_text_preserved.
